@@ -389,10 +389,12 @@ def judge_composition(case, sizes, rd, rt):
         return {"stream": "B-composition", "input": inp, "model": [status, obs, ok],
                 "what": "the writer model composed with the SCC reader model does not re-read to the same words "
                         "(status %d: 0 read, 1 writer error, 2 not a document, 3 reader refused)" % status}
-    if isinstance(rd, Ok) and not near_threshold(case["caps"], sizes):
+    if isinstance(rd, Ok):
+        # audit w7: texts and caption count are compared on EVERY case; only the starts depend on the float boundary
         real = rd.v
+        near = near_threshold(case["caps"], sizes)
         same = len(real) == len(obs) and all(
-            r[1] == o[1] and abs(r[0] - Fraction(o[0][0], o[0][1])) <= Fraction(1, 1024) for r, o in zip(real, obs))
+            r[1] == o[1] and (near or abs(r[0] - Fraction(o[0][0], o[0][1])) <= Fraction(1, 1024)) for r, o in zip(real, obs))
         if not same:
             return {"stream": "B-composition", "input": inp, "impl": [[str(a), b] for a, b in real],
                     "model": [[str(Fraction(o[0][0], o[0][1])), o[1]] for o in obs],
@@ -483,8 +485,8 @@ def evaluate(cases):
                               "what": "code words per load in the implementation's document differ from the model's sizes"}
             elif not special and not case["flags"].get("extended") and not case["flags"].get("early_first"):
                 rec["dis"] = judge_composition(case, sizes, rd, rt)
-        if rec["viol"] is None and rec["dis"] is None:
-            rec["dis"] = judge_theorem_domain(case, rec, rd, special)
+        # audit w7: the theorem-domain judgement runs for EVERY case inside the domain, whatever else was found
+        rec["dis_domain"] = judge_theorem_domain(case, rec, rd, special)
         out.append(rec)
     # cases with a caption on more than 15 rows or a whitespace-only cue that failed: judge the OTHER cues on their own
     reqs2 = []
@@ -718,6 +720,9 @@ def run(ctx):
             res["violations"].append(viol)
         if dis is not None:
             res["disagreements"].append(dis)
+        if rec.get("dis_domain") is not None:
+            res["disagreements"].append(rec["dis_domain"])
+        dist["B_theorem_domain_cases_judged(= inside domain)"] = dist.get("B_theorem_domain_cases_judged(= inside domain)", 0) + int(rec["thm_domain"])
     dist["B_rows_per_caption"] = {str(k): v for k, v in sorted(rows_hist.items())}
     in_domain = [c for c in cases[30:] if all(len(l) <= 80 for cp in c["caps"] for l in cp["lines"])
                  and not c["flags"].get("extended") and not c["flags"].get("early_first")
